@@ -314,7 +314,7 @@ def get_skeletons():
     return SKELETONS
 
 
-KWARGS = ['none', 'default', 'skip-hit', 'skip-miss', 'default+skip-hit', 'default+skip-miss', 'debug', 'debug+default']
+KWARGS = ['none', 'default', 'skip-hit', 'skip-miss', 'default+skip-hit', 'default+skip-miss', 'debug', 'debug+default', 'skip-empty', 'default+skip-empty']
 DEFAULT = ['the default object']
 
 
@@ -330,6 +330,8 @@ def mk_kwargs(name, O):
         kw['skip_exc'] = type(O) if isinstance(O, Exception) else (Exception, type(O))
     if 'skip-miss' in name:
         kw['skip_exc'] = (Unrelated, FloatingPointError)
+    if 'skip-empty' in name:
+        kw['skip_exc'] = ()
     if 'debug' in name:
         kw['glom_debug'] = True
     return kw
